@@ -732,7 +732,12 @@ class Interp:
                         # any other annotated field (tuples, dicts, lists, objects): an arbitrary value left by an earlier call;
                         # indexing / comparing / listing it yields arbitrary results (theory 'stale')
                         self.ctx.use(f"stale-state: {nm} not set by the harness -> arbitrary value of unknown shape (left by an earlier call)")
-                        stale = TheoryObj("stale", label=nm, fields={"__overloads__": True})
+                        vkind = None
+                        mdict = __import__("re").match(r"^(?:Dict|dict)\[\s*\w+\s*,\s*(str|int|bool)\s*\]$", srca.replace("Optional[", "").rstrip("]") + ("]" if srca.startswith("Optional[") else "")) \
+                            or __import__("re").match(r"^(?:Dict|dict)\[\s*\w+\s*,\s*(str|int|bool)\s*\]$", srca)
+                        if mdict:
+                            vkind = mdict.group(1)
+                        stale = TheoryObj("stale", label=nm, fields={"__overloads__": True, "vkind": vkind})
                         return SOpt(c.fresh_bool(nm + "_none"), stale) if srca.startswith("Optional[") else stale
                     try:
                         lit = ast.literal_eval(val)
